@@ -17,7 +17,8 @@
 (***************************************************************************)
 EXTENDS Stack, TLC, Json, IOUtils
 
-CONSTANTS NSample, Seed, CoverStride   \* CoverStride: 1 = every adjacency pair, k = every k-th (quick)
+CONSTANTS NSample, Seed, CoverStride,  \* CoverStride: 1 = every adjacency pair, k = every k-th (quick)
+          FullDepth3               \* TRUE: additionally EVERY stack of depth <= 3 of the grammar (N, M in 1..4, float/double)
 
 Ext(N) == CASE N = 1 -> <<6>> [] N = 2 -> <<5, 4>> [] N = 3 -> <<4, 4, 5>> [] N = 4 -> <<4, 4, 4, 4>>
 Other(t) == IF t = "float" THEN "double" ELSE "float"
@@ -97,9 +98,27 @@ ChainStack(d, prim) == [j \in 1..(d - (IF prim = "identity" THEN 1 ELSE 2)) |-> 
                        \o (IF prim = "identity" THEN <<IdentL(1, "float")>> ELSE <<LayoutL("strided", 1), [k |-> "array", m |-> 2, t |-> "float", count |-> 6]>>)
 ChainStacks == {ChainStack(d, "identity") : d \in 2..10} \cup {ChainStack(d, "array") : d \in 3..10}
 
+\* ---- full enumeration to depth 3 (thorough tier): every base (primitive with its storage order) and every single
+\* wrapper / interpolator over it, and every pair of layers over constant / identity, for all N, M in 1..4 and both widths
+Bases3 == {<<LayoutL(lay, N), ArrayL(M, T, lay, N)>> : lay \in {"strided", "morton"}, N \in 1..4, M \in 1..4, T \in {"float", "double"}}
+          \cup {<<LayoutL("hilbert", 2), ArrayL(M, T, "hilbert", 2)>> : M \in 1..4, T \in {"float", "double"}}
+Prims3 == {<<ConstL(N, M, T, ins)>> : N \in 1..4, M \in 1..4, T \in {"float", "double"}, ins \in {"size", "float"}}
+          \cup {<<IdentL(N, T)>> : N \in 1..4, T \in {"float", "int"}}
+OverBase(b) == LET k == Kind(b) IN
+   {<<MakeWrapper(WrapperKinds[w], 1, k.n, k.m, k.outs)>> \o b : w \in 1..5}
+   \cup {<<InterpL(ik, k.n, ins)>> \o b : ik \in {"linear", "nearest"}, ins \in {"float", "double"}}
+Over1(b) == LET k == Kind(b) IN
+   {<<MakeWrapper(WrapperKinds[w], 1, k.n, k.m, IF k.outs \in Floating THEN k.outs ELSE "float")>> \o b : w \in 1..6}
+   \cup {<<InterpL(ik, k.n, "float")>> \o b : ik \in {"linear", "nearest"}}
+Depth3Stacks == IF ~FullDepth3 THEN {}
+                ELSE Bases3 \cup UNION {OverBase(b) : b \in Bases3}
+                     \cup Prims3 \cup UNION {Over1(b) : b \in Prims3}
+                     \cup UNION {UNION {Over1(c) : c \in {x \in Over1(b) : ~IsIll(Kind(x))}} : b \in Prims3}
+
 PairSeq == SetToSeq(PairStacks)
 CoverStacks == {PairSeq[i] : i \in {j \in 1..Len(PairSeq) : j % CoverStride = 0}}
 AllStacks == {st \in CoverStacks \cup SampleStacks : WellKinded(st) /\ Len(st) <= 5} \cup {st \in ChainStacks : WellKinded(st)}
+             \cup {st \in Depth3Stacks : WellKinded(st) /\ Len(st) <= 3}
 
 \* ---- coordinates: candidates on the grid; the in-domain ones are those on which Eval is defined
 RealCands == {0, DS, S, S + 3 * DS, 2 * S}                 \* 0, 1/4, 1, 7/4, 2
